@@ -480,6 +480,10 @@ class _StructureGuards(ast.NodeTransformer):
     def _nest(self, body, jump):
         out = []
         for i, s in enumerate(body):
+            if isinstance(s, ast.If):
+                # the same rewrite inside the branches (a guard clause within a block guards the rest of that block)
+                s.body = self._nest(s.body, jump)
+                s.orelse = self._nest(s.orelse, jump)
             if isinstance(s, ast.If) and not s.orelse and _ends_with(s.body, jump) and i + 1 < len(body):
                 s.orelse = self._nest(body[i + 1:], jump)
                 out.append(s)
